@@ -2,6 +2,7 @@
 #include "vh.h"
 using namespace cnl;
 using namespace vh;
+static const bool vh_strict_on = (vh::strict = true);
 
 #ifndef VH_TABLE
 #define VH_TABLE "C06"
